@@ -244,7 +244,7 @@ def cmdSearch (rest : String) (tt : TT) : List String × TT :=
     let (r, e) := search chessRules cfg g o.depth tt rep
     if e.rep.overflow then (e.out.toList ++ ["!panic"], e.tt) else
     let lines := e.out.toList ++
-      [ row "deferred" e.deferred, row "pending" e.chan,
+      [ row "deferred" e.deferred, row "pending" (e.chan.map fun l => l.trimAscii.toString),
         s!"result best={r.bestMove.hex} nodes={r.nodes} score={r.score} depth={r.depth} complete={if r.complete then 1 else 0} tthits={r.ttHits}",
         row "polls" (e.pollLog.toList.map toString),
         s!"end ply={e.ply} repidx={e.rep.index} stopping={if e.stopping then 1 else 0}",
